@@ -17,7 +17,8 @@ Reference semantics for C15, written from the documentation of `Composite::from_
 namespace Q1t.Spec.FromString
 open Q1t Q1t.Spec.ExprGrammar
 
-/-- name ↦ (gate struct, #parameters, #qubits, parameter order), from the documentation. -/
+/-- name ↦ (gate struct, #parameters, #qubits, parameter order), from the documentation; sorted by name (a lookup table
+with distinct names: the order carries no meaning). -/
 def documentedTable : List (String × String × Nat × Nat × List Nat) := [
   ("ccrx", "CCRX", 1, 3, [0]), ("ccry", "CCRY", 1, 3, [0]), ("ccrz", "CCRZ", 1, 3, [0]),
   ("ccx", "CCX", 0, 3, []), ("ccz", "CCZ", 0, 3, []),
@@ -29,8 +30,8 @@ def documentedTable : List (String × String × Nat × Nat × List Nat) := [
   ("cx", "CX", 0, 2, []), ("cy", "CY", 0, 2, []), ("cz", "CZ", 0, 2, []),
   ("h", "H", 0, 1, []), ("i", "I", 0, 1, []),
   ("rx", "RX", 1, 1, [0]), ("ry", "RY", 1, 1, [0]), ("rz", "RZ", 1, 1, [0]),
-  ("s", "S", 0, 1, []), ("sdg", "Sdg", 0, 1, []), ("t", "T", 0, 1, []), ("tdg", "Tdg", 0, 1, []),
-  ("swap", "Swap", 0, 2, []),
+  ("s", "S", 0, 1, []), ("sdg", "Sdg", 0, 1, []), ("swap", "Swap", 0, 2, []),
+  ("t", "T", 0, 1, []), ("tdg", "Tdg", 0, 1, []),
   ("u1", "U1", 1, 1, [0]), ("u2", "U2", 2, 1, [0, 1]), ("u3", "U3", 3, 1, [0, 1, 2]),
   ("v", "V", 0, 1, []), ("vdg", "Vdg", 0, 1, []),
   ("x", "X", 0, 1, []), ("y", "Y", 0, 1, []), ("z", "Z", 0, 1, [])]
